@@ -77,7 +77,8 @@ pub fn generate(seed: u64, idx: u64) -> Scenario {
     let mut rng = Rng::derive(seed.wrapping_mul(0x9E37_79B9).wrapping_add(idx), "c08");
     let mut s = Session::new();
     s.handshake(rng.chance(500));
-    let ndocs = rng.range(1, 3);
+    // (one session in forty works on many documents)
+    let ndocs = if rng.chance(25) { *rng.pick(&[6usize, 10, 18, 34]) } else { rng.range(1, 3) };
     let mut uris: Vec<String> = (0..ndocs).map(fresh_uri).collect();
     if rng.chance(200) {
         // documents whose URIs are almost equal (same path, other scheme / query / fragment /
